@@ -90,4 +90,103 @@ def lookupName (d : List (String × Val × Val)) (n : String) : Option (Val × V
 def decodeVariant (names : List String) (d : List (String × Val × Val)) : List (Option (Val × Val)) :=
   names.map (lookupName d)
 
+
+/-! ### the whole model record -/
+
+/-- stable sort by kind = one pass per kind in kind order (`reorder_by_kind`, and the export loops) -/
+def groupQ (order : List QKind) (qs : List Quantity) : List Quantity :=
+  order.flatMap (fun k => qs.filter (fun q => q.kind = k))
+
+def groupE (es : List Equation) : List Equation :=
+  eexportOrder.flatMap (fun k => es.filter (fun e => e.kind = k))
+
+/-- the order of `QuantityKind` values (what `reorder_by_kind` sorts by) -/
+def fullOrder : List QKind :=
+  [.transVar, .measVar, .transShock, .antShock, .measShock, .param, .exog, .transStd, .measStd]
+
+def decodeQs : List PQuantity → Option (List Quantity)
+  | [] => some []
+  | p :: ps =>
+    match decodeQ p, decodeQs ps with
+    | some q, some qs => some (q :: qs)
+    | _, _ => none
+
+def decodeEs : List PEquation → Option (List Equation)
+  | [] => some []
+  | p :: ps =>
+    match decodeE p, decodeEs ps with
+    | some e, some es => some (e :: es)
+    | _, _ => none
+
+def descOr (q : Quantity) : String := if q.desc = "" then q.name else q.desc
+
+/-- `_create_std_for_shock` -/
+def stdOf (k : QKind) (q : Quantity) : Quantity :=
+  { name := "std_" ++ q.name, kind := k, logly := none, desc := "(Std) " ++ descOr q, attrs := none }
+
+/-- `_create_anticipated_shock_for_transition_shock` -/
+def antOf (q : Quantity) : Quantity :=
+  { name := "ant_" ++ q.name, kind := .antShock, logly := none, desc := "(Anticipated value) " ++ descOr q, attrs := none }
+
+/-- the std quantities `from_source` creates (none for a deterministic model) -/
+def stdsOf (fl : Flags) (qs : List Quantity) : List Quantity :=
+  if fl.deterministic then []
+  else (qs.filter (fun q => q.kind = .transShock)).map (stdOf .transStd) ++
+       (qs.filter (fun q => q.kind = .measShock)).map (stdOf .measStd)
+
+/-- transition shocks that still lack their anticipated counterpart (none in an exported model) -/
+def missingAnt (qs : List Quantity) : List Quantity :=
+  (qs.filter (fun q => q.kind = .transShock)).filter (fun q => !(qs.any (fun r => r.name == "ant_" ++ q.name)))
+
+structure PModel where
+  format : String
+  desc : String
+  flags : Flags
+  quantities : List PQuantity
+  equations : List PEquation
+  context : List String
+  variants : List (List (String × Val × Val))
+  deriving Repr
+
+inductive PErr | format | badCode | duplicateNames | counts | noVariants | unknownName
+  deriving DecidableEq, Repr
+
+/-- `Simultaneous.to_portable` -/
+def toPortable (d : InvData) (vars : List (List Val × List Val)) : PModel :=
+  { format := "0.3.0", desc := d.desc, flags := d.flags, quantities := encodeQs d.quantities,
+    equations := encodeEs d.equations, context := encodeContext d.contextKeys,
+    variants := vars.map (fun v => encodeVariant (d.quantities.map (·.name)) v.1 v.2) }
+
+def countQ (qs : List Quantity) (k : QKind) : Nat := (qs.filter (fun q => q.kind = k)).length
+def countE (es : List Equation) (k : EKind) : Nat := (es.filter (fun e => e.kind = k)).length
+
+/-- the values of one imported variant: initial values overwritten by the dictionary, then the assignment rules -/
+def importVariant (d : InvData) (dict : List (String × Val × Val)) : List Val × List Val :=
+  let pairs := decodeVariant (d.quantities.map (·.name)) dict
+  (enforceLevels d.quantities (List.zipWith (fun i p => match p with | some v => v.1 | none => i) (initLevels d) pairs),
+   enforceChanges d.quantities (List.zipWith (fun i p => match p with | some v => v.2 | none => i) (initChanges d) pairs))
+
+/-- `Simultaneous.from_portable` (with the three pending fixes); `subst` is the regex substitution of
+`shock -> (shock+ant_shock)` in the dynamic equations, applied only when some shock lacks its counterpart -/
+def fromPortable (subst : List Quantity → Equation → Equation) (tol : Rat) (p : PModel) :
+    Except PErr (InvData × List (List Val × List Val)) :=
+  if p.format ≠ "0.3.0" then .error .format else
+  match decodeQs p.quantities, decodeEs p.equations with
+  | some qs, some es =>
+    let missing := missingAnt qs
+    let qs1 := qs ++ missing.map antOf
+    let es1 := if missing.isEmpty then es else es.map (subst missing)
+    let qs2 := qs1 ++ stdsOf p.flags qs1
+    if ¬ (qs2.map (·.name)).Nodup then .error .duplicateNames
+    else if countQ qs2 .transVar ≠ countE es1 .transition ∨ countQ qs2 .measVar ≠ countE es1 .measurement then .error .counts
+    else
+      let d : InvData :=
+        { desc := p.desc, flags := p.flags, quantities := groupQ fullOrder qs2, equations := groupE es1,
+          contextKeys := p.context, tolEig := tol, tolEq := tol,
+          defaultStd := if p.flags.linear then 1 else 1 / 100 }
+      if p.variants.isEmpty then .error .noVariants
+      else if p.variants.any (fun dict => dict.any (fun e => !(d.quantities.any (fun q => q.name == e.1)))) then .error .unknownName
+      else .ok (d, p.variants.map (importVariant d))
+  | _, _ => .error .badCode
+
 end IrisVerif.Portable
